@@ -119,9 +119,11 @@ impl PlainYearMonth {
         // 12. Let otherDate be ? CalendarDateFromFields(calendar, otherFields, constrain).
         // 13. Let dateDifference be CalendarDateUntil(calendar, thisDate, otherDate, settings.[[LargestUnit]]).
         // 14. Let yearsMonthsDifference be ! AdjustDateDurationRecord(dateDifference, 0, 0).
+        let this_date = IsoDate::new_unchecked(self.iso.year, self.iso.month, 1);
+        let other_date = IsoDate::new_unchecked(other.iso.year, other.iso.month, 1);
         let result = self
             .calendar()
-            .date_until(&self.iso, &other.iso, resolved.largest_unit)?;
+            .date_until(&this_date, &other_date, resolved.largest_unit)?;
 
         // 15. Let duration be CombineDateAndTimeDuration(yearsMonthsDifference, 0).
         let mut duration = NormalizedDurationRecord::from_date_duration(*result.date())?;
